@@ -2,6 +2,9 @@
 
 Reads, on every run, from the tree under test
 
+* dune/common/densematrix.hh    (round 3) the singularity tests of the configuration DUNE_FMatrix_WITH_CHECKING in the closed
+                                forms of solve()/invert(): mask reduction, comparison, tested expression;
+
 * dune/common/simd/loop.hh      the operator macros (DUNE_SIMD_LOOP_*): for every macro the per-lane loop of each
                                 overload (loop bounds, destination index, operand indices, operand order) and the
                                 list of operators / cmath functions the macro is invoked for; the hand-written
@@ -512,6 +515,72 @@ def translate_defaults(src):
     return d
 
 
+def translate_densematrix(src):
+    """densematrix.hh: the singularity tests the configuration DUNE_FMatrix_WITH_CHECKING compiles into the closed forms of
+    solve() (n = 1, 2, 3) and invert() (n = 1, 2): which mask reduction, which comparison, what is thrown.  These are the places
+    where a lane mask decides for all lanes at once."""
+    ns = nospace(strip_comments(src))
+    def body_of(sig_re, what):
+        m = re.search(sig_re, ns)
+        if not m:
+            raise TranslateError("densematrix.hh: %s not found" % what)
+        start = ns.index("{", m.end() - 1)
+        depth, e = 0, start
+        while True:
+            if ns[e] == "{":
+                depth += 1
+            elif ns[e] == "}":
+                depth -= 1
+                if depth == 0:
+                    break
+            e += 1
+        return ns[start + 1:e]
+    test_re = re.compile(r"#ifdefDUNE_FMatrix_WITH_CHECKINGif\(Simd::(\w+)\(fvmeta::absreal\(([^;#]+?)\)(<=|>=|<|>)FMatrixPrecision<>::absolute_limit\(\)\)\)"
+                         r"DUNE_THROW\(FMatrixError,\"[^\"]*\"\);#endif")
+    def tests(body, sizes, what):
+        # the closed forms are the branches `if (rows()==1) {…} else if (rows()==2) {…} …`
+        res = {}
+        marks = [(n_, body.find("if(rows()==%d){" % n_)) for n_ in (1, 2, 3)]
+        for n_, pos in marks:
+            if pos < 0:
+                raise TranslateError("densematrix.hh: %s: closed form for n = %d not found" % (what, n_))
+        ends = [marks[1][1], marks[2][1], None]
+        for (n_, pos), end in zip(marks, ends):
+            if end is None:
+                # the n = 3 branch ends where the general (LU) branch starts
+                end = body.find("else{", pos)
+                if end < 0:
+                    raise TranslateError("densematrix.hh: %s: general branch not found" % what)
+            seg = body[pos:end]
+            found = test_re.findall(seg)
+            if "DUNE_FMatrix_WITH_CHECKING" in seg and len(found) != seg.count("DUNE_FMatrix_WITH_CHECKING"):
+                raise TranslateError("densematrix.hh: %s n = %d: checked block outside the grammar" % (what, n_))
+            if len(found) > 1:
+                raise TranslateError("densematrix.hh: %s n = %d: more than one singularity test" % (what, n_))
+            if found:
+                red, expr, cmp_ = found[0]
+                if red not in ("anyTrue", "allTrue", "anyFalse", "allFalse"):
+                    raise TranslateError("densematrix.hh: %s n = %d: unknown reduction %s" % (what, n_, red))
+                # what is tested must be the determinant of the closed form
+                ok_expr = {1: ("(*this)[0][0]",), 2: ("detinv",), 3: ("d",)}[n_]
+                if expr not in ok_expr:
+                    raise TranslateError("densematrix.hh: %s n = %d: tested expression %r" % (what, n_, expr))
+                if n_ == 2 and "field_typedetinv=(*this)[0][0]*(*this)[1][1]-(*this)[0][1]*(*this)[1][0];#ifdef" not in seg:
+                    raise TranslateError("densematrix.hh: %s n = 2: determinant expression changed" % what)
+                if n_ == 3 and "field_typed=determinant(doPivoting);#ifdef" not in seg:
+                    raise TranslateError("densematrix.hh: %s n = 3: determinant expression changed" % what)
+                res[n_] = (red, SYMBOL_NAMES[cmp_])
+        rest = body[(body.find("else{", marks[2][1])):]
+        if "DUNE_FMatrix_WITH_CHECKING" in rest:
+            raise TranslateError("densematrix.hh: %s: checked block in the general branch: not modelled" % what)
+        return res
+    solve = tests(body_of(r"inlinevoidDenseMatrix<MAT>::solve\(V1&x,constV2&b,booldoPivoting\)const\{", "solve"), (1, 2, 3), "solve")
+    invert = tests(body_of(r"inlinevoidDenseMatrix<MAT>::invert\(booldoPivoting\)\{", "invert"), (1, 2, 3), "invert")
+    if ns.count("DUNE_FMatrix_WITH_CHECKING") != len(solve) + len(invert):
+        raise TranslateError("densematrix.hh: a DUNE_FMatrix_WITH_CHECKING block outside solve/invert: not modelled")
+    return solve, invert
+
+
 def translate_spec(md):
     """the operator table of simd/DESIGN.md"""
     text = re.sub(r"\s+", " ", md)
@@ -571,6 +640,7 @@ def translate(repo):
     scalar_reds = translate_standard(rd("dune/common/simd/standard.hh"))
     dflt = translate_defaults(rd("dune/common/simd/defaults.hh"))
     spec = translate_spec(rd("dune/common/simd/DESIGN.md"))
+    chk_solve, chk_invert = translate_densematrix(rd("dune/common/densematrix.hh"))
 
     def syms(macro):
         return [a[0] for a in inv["DUNE_SIMD_LOOP_" + macro]]
@@ -698,6 +768,14 @@ def translate(repo):
     g.append("def implCastDst : Ix := %s" % dflt["implCast"][0])
     g.append("def implCastSrc : Ix := %s" % dflt["implCast"][1])
     g.append("")
+    # densematrix.hh, configuration DUNE_FMatrix_WITH_CHECKING
+    g.append("/-- densematrix.hh with DUNE_FMatrix_WITH_CHECKING: the singularity test in front of the closed form for `n`:")
+    g.append("    `if (Simd::RED(fvmeta::absreal(det) CMP FMatrixPrecision<>::absolute_limit())) DUNE_THROW(FMatrixError, …)` -/")
+    def chk_list(d):
+        return "[" + ", ".join("(%d, .%s, .%s)" % (n_, d[n_][0], d[n_][1]) for n_ in sorted(d)) + "]"
+    g.append("def chkSolve : List (Nat × RedKind × CmpOpName) := %s" % chk_list(chk_solve))
+    g.append("def chkInvert : List (Nat × RedKind × CmpOpName) := %s" % chk_list(chk_invert))
+    g.append("")
     # operator lists
     un = syms("UNARY_OP")
     g += inductive("UnOp", ctor_names(un, UNARY_NAMES, "unary"), un)
@@ -786,6 +864,24 @@ def translate(repo):
               "    LanewiseBin (Simd.compareVV sem .%s a b) (sem .%s) a b ∧ LanewiseBinVS (Simd.compareVS sem .%s a s) (sem .%s) a s ∧\n"
               "    LanewiseBinSV (Simd.compareSV sem .%s s b) (sem .%s) s b" % (c, c, c, c, c, c),
               "⟨lanewise_compareVV sem _ a b, lanewise_compareVS sem _ a s, lanewise_compareSV sem _ s b⟩")
+    # (round 3) the scalar operand has another arithmetic type σ: the lanes see it in its own type
+    for c in ctor_names(cmp_, SYMBOL_NAMES, "comparison"):
+        lemma("lane_compare_mixed_%s" % c,
+              "{α σ : Type} {S : Nat} (semL : CmpOp → α → Simd.Arg σ α → Option Bool) (semR : CmpOp → Simd.Arg σ α → α → Option Bool)\n"
+              "    (toLane : σ → Option α) (truth : σ → Option Bool) (a : Vec α S) (s : σ) :\n"
+              "    LanewiseBinVS (Simd.compareVSx semL toLane truth .%s a s) (fun x t => semL .%s x (.own t)) a s ∧\n"
+              "    LanewiseBinSV (Simd.compareSVx semR toLane truth .%s s a) (fun t y => semR .%s (.own t) y) s a" % (c, c, c, c),
+              "⟨lanewise_compareVSx semL toLane truth _ a s, lanewise_compareSVx semR toLane truth _ s a⟩")
+    for c in ctor_names(bo, SYMBOL_NAMES, "boolean"):
+        lemma("lane_logic_mixed_%s" % c,
+              "{α σ : Type} {S : Nat} (semL : BoolOp → α → Simd.Arg σ α → Option Bool) (toLane : σ → Option α) (truth : σ → Option Bool)\n"
+              "    (a : Vec α S) (s : σ) : LanewiseBinVS (Simd.logicVSx semL toLane truth .%s a s) (fun x t => semL .%s x (.own t)) a s" % (c, c),
+              "lanewise_logicVSx semL toLane truth _ a s")
+    for c in ctor_names(sh, SYMBOL_NAMES, "shift"):
+        lemma("lane_shift_mixed_%s" % c,
+              "{α σ : Type} {S : Nat} (sem : ShiftOp → α → Simd.Arg σ α → Option α) (toLane : σ → Option α) (truth : σ → Option Bool)\n"
+              "    (a : Vec α S) (s : σ) : LanewiseBinVS (Simd.shiftVSx sem toLane truth .%s a s) (fun x t => sem .%s x (.own t)) a s" % (c, c),
+              "lanewise_shiftVSx sem toLane truth _ a s")
     for c in ctor_names(bo, SYMBOL_NAMES, "boolean"):
         lemma("lane_logic_%s" % c,
               "{α : Type} {S : Nat} (sem : BoolOp → α → α → Option Bool) (a b : Vec α S) (s : α) :\n"
